@@ -7,6 +7,7 @@ use crate::exec::{Op, RunLog, Scenario};
 use crate::log::{ApiEv, Ev};
 use crate::stubs::{Answer, StubCfg};
 use serde_json::json;
+use std::net::SocketAddr;
 
 pub struct C18;
 
@@ -63,6 +64,14 @@ impl Property for C18 {
             }
             real.nodes.push(s.addr);
             sc.world.stubs.push(s);
+        }
+        // a contact advertised with port 0: every datagram to it fails to send (EINVAL), persistently
+        // and for that destination only, while everything else works
+        if n_stubs > 0 && rng.chance(1, 4) {
+            let host = rng.below(n_stubs as u64) as usize;
+            let refs: Vec<crate::stubs::NodeRef> = (0..rng.range(1, 2)).map(|j| crate::stubs::NodeRef { id: rng.id20(), addr: SocketAddr::new(addr(v6, 5, 1 + j as u32, 1).ip(), 0) }).collect();
+            sc.world.stubs[host].nodes = crate::stubs::NodesMode::ClosestPlus(refs);
+            sc.params.insert("port0_contacts".into(), 1);
         }
         // sometimes the contacts are given as routers (IP literals) instead of nodes
         if n_stubs > 0 && rng.chance(1, 5) {
@@ -173,6 +182,9 @@ impl Property for C18 {
         if sc.param("searches") > 0 {
             v.hit("run_with_searches");
         }
+        if run.stats.get("send_to_port_0_einval").copied().unwrap_or(0) > 0 {
+            v.hit("sends_to_port_0_contact_fail");
+        }
         if sc.param("searches") == 0 && last.3 > 2 {
             v.violate(
                 "C18",
@@ -199,6 +211,6 @@ impl Property for C18 {
         vec!["refresh rounds and bootstrap completions are counted by hook H3/H4 counters inside the node", "await-granularity interleavings on a single-threaded runtime"]
     }
     fn required_reach(&self) -> Vec<&'static str> {
-        vec!["rebootstrapped_100_times", "run_with_searches"]
+        vec!["rebootstrapped_100_times", "run_with_searches", "sends_to_port_0_contact_fail"]
     }
 }
